@@ -71,7 +71,10 @@ package yubiattest
 //@   ensures [only-if] result == nil ==> pkcsOK(pub, hash, hashed, sig)
 //@   ensures [if] pkcsOK(pub, hash, hashed, sig) ==> result == nil
 //@   loop 1:
-//@     invariant k == kOf(pub) && len(em) == k && forall(j, 0 <= j && j < k, em[j] == emAt(k, mOf(pub, sig), j))
+//@     invariant k == kOf(pub) && len(em) == k
+//@     invariant forall(j, 0 <= j && j < k - min(bytelen(mOf(pub, sig)), k), em[j] == 0)
+//@     invariant forall(j, k - min(bytelen(mOf(pub, sig)), k) <= j && j < k, em[j] == i2b(mOf(pub, sig))[j - (k - min(bytelen(mOf(pub, sig)), k))])
+//@     invariant forall(j, 0 <= j && j < k, em[j] == emAt(k, mOf(pub, sig), j))
 //@     invariant len(hashed) == hsize(hash) && hashLen == hsize(hash) && tLen1 == p1len(hash) + hsize(hash) && tLen2 == p2len(hash) + hsize(hash) && k >= tLen1 + 11
 //@     invariant (prefix1ok == 0 || prefix1ok == 1) && (prefix2ok == 0 || prefix2ok == 1)
 //@     invariant prefix1ok == 1 <==> (emAt(k, mOf(pub, sig), k - p1len(hash) - hsize(hash) - 1) == 0 &&
